@@ -13,5 +13,5 @@ CONSTANTS
   Chars = {}
   IntParts = {}
   Sample = 1
-INVARIANTS InvCallTotal InvNormalForm InvModeDiscipline InvBindingIsFunction InvOkMeansEachParameterOnce InvPositionalFirst InvRenderReads
+INVARIANTS InvCallTotal InvNormalForm InvModeDiscipline InvBindingIsFunction InvOkMeansEachParameterOnce InvPositionalFirst InvRenderReads InvFormat
 CHECK_DEADLOCK FALSE
